@@ -95,6 +95,7 @@ Lemma loop_inv : forall n it l, Inv l -> Inv (loop fast explicit Orc C n it l).
 Proof.
   induction n; intros it l H; simpl; [exact H|].
   assert (H1 : Inv (finish_iteration Orc C (iteration fast explicit Orc C it l))) by (apply finish_inv, iteration_inv, H).
+  destruct (use_callback C && cb_stop Orc it); [apply emit_inv; [apply iteration_inv, H | exact I]|].
   destruct (stop Orc it); [apply emit_inv; simpl; auto | apply IHn; exact H1].
 Qed.
 
@@ -123,7 +124,7 @@ Definition toy_repr (st : blocks nat) : nat := st 0 + st 1.
 Definition toy_fast (cur : blocks nat) (c : nat * blocks nat) (p : nat) : nat := cur p + snd c (1 - p).
 Definition toy_explicit (st : blocks nat) : nat := st 0 + st 1.
 Definition toy_oracle : oracle nat :=
-  mkOracle (fun it m _ => 10 * S it + m) (fun st j => st (1 - j)) (fun it _ st j => st j + 100) (fun _ => true) (fun _ => false).
+  mkOracle (fun it m _ => 10 * S it + m) (fun st j => st (1 - j)) (fun it _ st j => st j + 100) (fun _ => true) (fun _ => false) (fun _ => false).
 Definition toy_init : blocks nat := fun _ => 1.
 
 Lemma toy_fast_ok cur k snap : k < 2 -> (forall j, j <> k -> snap j = cur j) -> toy_fast cur (k, snap) k = toy_repr cur.
